@@ -111,7 +111,11 @@ func (g *mutableGen) genOneof(field *protogen.Field) {
 	g.P("switch m := x.", field.Oneof.GoName, ".(type) {")
 	// we check if the type matches the oneof type of the field
 	g.P("case *", g.QualifiedGoIdent(field.GoIdent), ":")
-	// if it does we return it
+	// if it does we return it; a wrapper holding nil stands for an empty member:
+	// Mutable must hand out a message that can be written to
+	g.P("if m.", field.GoName, " == nil {")
+	g.P("m.", field.GoName, " = new(", g.QualifiedGoIdent(field.Message.GoIdent), ")")
+	g.P("}")
 	g.P("return ", protoreflectPkg.Ident("ValueOfMessage"), "(m.", field.GoName, ".ProtoReflect())")
 	// otherwise we reset the field with the new instance
 	g.P("default:")
